@@ -26,7 +26,7 @@ func init() {
 			ma.ruleR14m(c)
 			ma.ruleR8(c)
 			ruleV7(c)
-			ruleV6(c) // the view's env entries are rendered exactly as the generator renders the combined adjustment
+			ruleV6(c)     // the view's env entries are rendered exactly as the generator renders the combined adjustment
 			ma.ruleR19(c) // what later plugins are shown of the container being updated changes only on commit, from a staged Copy()
 		},
 		explanation: "Decides that the request object shown to plugins is kept in step with the combined result: every accepted write into the reply has a twin write of the same item and value into the request view (and vice versa); removed and re-set keys are dropped from the view before new entries are appended; lists in the view only grow by append; the result constructors keep the caller's request pointer (identity, not a copy) and only replace nil members by empty ones; the request methods hand that same request object to every plugin in one sequential loop; for update requests the committed resources are written back to the request exactly when the update targets the container being updated. Also decided: accumulated and staged maps are created only when nil, filter lookups use the set's own kind of key, and claims depend on presence only. The staged working copy of an update is a Copy(), and the optional constructors Copy() relies on keep nil as nil. Env entries of the view are always rendered with the separator, as the generator renders them.",
